@@ -359,6 +359,9 @@ func (v *Verifier) solveAll(x *Exec, obls []*Obligation, timeoutS int, stats *So
 	var retry []*Obligation
 	for _, o := range obls {
 		if o.Status == "unknown" && !o.ExpectSat && !strings.Contains(o.Output, "(error ") {
+			if NoRetryLabels[stableLabel(o.Label)] || NoRetryLabels[findingLabel(o.Label)] {
+				continue // a recorded known finding: no point in a longer search for a proof
+			}
 			retry = append(retry, o)
 		}
 	}
@@ -395,6 +398,9 @@ func (v *Verifier) solveAll(x *Exec, obls []*Obligation, timeoutS int, stats *So
 		}
 	}
 }
+
+// NoRetryLabels: stable labels of obligations recorded as known findings.
+var NoRetryLabels = map[string]bool{}
 
 // Solve discharges the obligations of one function and settles the vacuity probes.
 func (v *Verifier) Solve(res *FuncResult, timeoutS int, stats *SolveStats) {
